@@ -80,7 +80,7 @@ ASSUME = ['value classes are concretised by one representative each; member name
 
 def tier_params(ctx):
     if ctx.tier == 'thorough':
-        return 3, ALLKINDS
+        return 4, ALLKINDS
     return 2, PAIRKINDS_QUICK
 
 
